@@ -34,6 +34,7 @@ MARKERS = [b"\x00", b"\r\n", b";", b"ab", b"aab", b"\xff\xfe", b"::"]
 
 DEFAULT_PROFILE = {
     "max_fields": 6,
+    "min_fields": 1,
     "max_depth": 3,
     "kinds": {"int": 34, "data": 26, "bits": 8, "ref": 12, "sel": 6, "em": 3},
     "p_rep": 0.16,
@@ -381,7 +382,7 @@ class Gen:
         decl = {"name": name, "opts": opts, "fields": []}
         self.decls[name] = decl   # reserve (children are created while generating fields)
         self._decl_fields.append(decl["fields"])
-        nfields = rng.randint(1, self.p["max_fields"])
+        nfields = rng.randint(min(self.p.get("min_fields", 1), self.p["max_fields"]), self.p["max_fields"])
         fields = decl["fields"]
         pos_lb = 0   # static lower bound of the cursor relative to the packet start
         if depth == 0 and not class_align and rng.random() < self.p["p_backrun"]:
